@@ -141,10 +141,11 @@ def judge(c, impl, model):
         k = tag(t)
         wty = want if k == 'id' else ('*const ' + want if k == 'cptr' else '[%s;2]' % want)
         if flds.get(fname) != wty:
-            fs.append(Finding('O', 'C11/wrong-binding', cid, 'User.%s: `%s` should denote %s, emitted %s' % (fname, base_name(t), want, flds.get(fname))))
+            own_is_type = len(own) >= 1 and own[-1] in defs.get(tuple(own[:-1]), {})
+            fs.append(Finding('O', 'C11/wrong-binding' + ('/module-path-is-type-path' if own_is_type else ''), cid, 'User.%s: `%s` should denote %s, emitted %s' % (fname, base_name(t), want, flds.get(fname))))
             break
     # the size used for layout is the selected definition's
-    if tag(impl.get('o2')) == 'resolved':
+    if tag(impl.get('o2')) == 'resolved' and not any(f.reason.endswith('module-path-is-type-path') for f in fs):
         it = o2_item(impl['o2'], own + ['User'])
         ps = find(c, 'ps')[1]
         total = 0
